@@ -43,10 +43,22 @@ def _ts(d):
     return dt.datetime.fromisoformat(d)
 
 
-def window(ds, i, lookback_days, lag_days):
+def _minus(t, off):
+    """t - DateOffset(**off) with calendar arithmetic (months clip to the month end), as pandas does"""
+    from dateutil.relativedelta import relativedelta
+
+    return t - relativedelta(**off)
+
+
+def window(ds, i, lookback, lag):
+    """rows of the documented window [now - lag - lookback, now - lag]; the lag is applied first"""
+    if not isinstance(lookback, dict):
+        lookback = {"days": lookback}
+    if not isinstance(lag, dict):
+        lag = {"days": lag}
     now = _ts(ds[i])
-    t0 = now - dt.timedelta(days=lag_days)
-    lo = t0 - dt.timedelta(days=lookback_days)
+    t0 = _minus(now, lag)
+    lo = _minus(t0, lookback)
     return [k for k in range(0, i + 1) if lo <= _ts(ds[k]) <= t0]
 
 
@@ -61,10 +73,17 @@ def returns_matrix(pr, cols, rows, synthetic_first=False):
 @st.composite
 def case_spec(draw, algo=None):
     algo = algo or draw(st.sampled_from(ALGOS))
-    ds, pr, tickers = draw(clean_universe())
+    month_cal = algo in ("WeighInvVol", "WeighERC", "WeighMeanVar", "TargetVol", "PTE_Rebalance") and draw(st.integers(0, 2)) == 0
+    if month_cal:
+        # ~4 months of (business-)daily data around month ends
+        ds = draw(gen.dates(70, 100, kinds=("bday", "daily"), start=draw(st.sampled_from(["2020-01-02", "2019-11-15", "2021-03-10", "2023-12-01"]))))
+        tickers = gen.TICKERS[: draw(st.integers(2, 3))]
+        pr = {t: draw(gen.price_path(len(ds), vol=draw(st.sampled_from([0.005, 0.02, 0.06])), decimals=6)) for t in tickers}
+    else:
+        ds, pr, tickers = draw(clean_universe())
     n = len(ds)
     g = gen.max_gap_days(ds)
-    spec = {"dates": ds, "prices": pr, "algo": algo, "params": {}, "rng_seed": draw(st.integers(0, 10**6)), "frames": {}}
+    spec = {"dates": ds, "prices": pr, "algo": algo, "params": {}, "rng_seed": draw(st.integers(0, 10**6)), "frames": {}, "month_calendar": month_cal}
     p = spec["params"]
     sel_kind = draw(st.sampled_from(["many", "many", "many", "single", "empty"]))
     if sel_kind == "many":
@@ -74,9 +93,13 @@ def case_spec(draw, algo=None):
     else:
         sel = []
     spec["selected"] = sel
-    spec["at"] = draw(st.integers(min(6, n - 1), n - 1))
+    spec["at"] = draw(st.integers(min(6, n - 1), n - 1)) if not month_cal else draw(st.integers(n - 45, n - 4))
     lb = {"days": draw(st.integers(5 * g, 5 * g + 60))}
     lag = {"days": draw(st.sampled_from([0, 0, 1, 2]))}
+    if spec["month_calendar"]:
+        # calendar look-backs (the default is 3 months) with day lags: month arithmetic does not commute with day arithmetic
+        lb = {"months": draw(st.integers(1, 3))}
+        lag = {"days": draw(st.sampled_from([0, 1, 2, 3, 5]))}
 
     def rand_weights(keys, short=False, total=None):
         if not keys:
@@ -281,7 +304,7 @@ def case_weigh(ctx, spec):
             if w != {sel[0]: 1.0}:
                 raise Violation("%s with single selection gave %s" % (name, w), signature=sig + ":single")
             return {"nontrivial": False, "labels": labs}
-        rows = window(ds, i, p["lookback"]["days"], p["lag"]["days"])
+        rows = window(ds, i, p["lookback"], p["lag"])
         R = returns_matrix(pr, sel, rows)
         if R.shape[0] < 3:
             raise Discard("window too short")
@@ -408,7 +431,7 @@ def case_weigh(ctx, spec):
                     raise Violation("TargetVol with no weights gave %s" % w, signature=sig + ":empty")
                 continue
             keys = list(w0)
-            rows = window(ds, j, p["lookback"]["days"], p["lag"]["days"])
+            rows = window(ds, j, p["lookback"], p["lag"])
             R = returns_matrix(pr, keys, rows)
             if R.shape[0] < 3:
                 raise Discard("window too short")
@@ -444,7 +467,7 @@ def case_weigh(ctx, spec):
             return {"nontrivial": False, "labels": labs + ["nopos"]}
         cols = list(live) + [c for c in spec["frames"]["ptw"]["cols"] if c not in live]
         d = np.array([live.get(c, 0.0) - (spec["frames"]["ptw"]["cols"][c][i] if c in spec["frames"]["ptw"]["cols"] else 0.0) for c in cols])
-        rows = window(ds, i, p["lookback"]["days"], p["lag"]["days"])
+        rows = window(ds, i, p["lookback"], p["lag"])
         R = returns_matrix(pr, cols, rows)
         if R.shape[0] < 3:
             raise Discard("window too short")
